@@ -11,6 +11,7 @@ def sources():
     for d in sorted(glob.glob('/tmp/wt2_out/C*')): yield d, os.path.basename(d), 'w2'
     for d in sorted(glob.glob('/tmp/wt2_out/D*')): yield d, 'C' + os.path.basename(d)[1:], 'w3'
     for d in sorted(glob.glob('/tmp/wt3_out/E*')): yield d, 'C' + os.path.basename(d)[1:], 'w4'
+    for d in sorted(glob.glob('/tmp/wt3_out/F*')): yield d, 'C' + os.path.basename(d)[1:], 'w5'
 for d, pid, wave in sources():
     for diff in sorted(glob.glob(d + '/m[0-9].diff')):
         key = pid + '-' + wave + os.path.basename(diff)[:-5]
